@@ -1,11 +1,12 @@
 """C02 — handlers can only return documented responses, written as documented."""
 from . import respfam
 
-THEOREMS = ["Goag.Resp.implementers_eq_documented", "Goag.Resp.root_mem"]
+THEOREMS = ["Goag.Resp.implementers_eq_documented", "Goag.Resp.root_mem",
+            "Goag.Resp.written_only_documented", "Goag.Resp.inline_written", "Goag.Resp.comp_written", "Goag.Resp.root_def_unique"]
 
 
 def check(ctx):
-    return respfam.check(ctx, "C02", ["GoagModel.Props.C02"], THEOREMS,
+    return respfam.check(ctx, "C02", ["GoagModel.Props.C02", "GoagModel.Props.C02w"], THEOREMS,
                          rule="specs = 3-5 operations over 7 path templates x {get,post,put,delete}: typed path / query (scalar and array) / header parameters, JSON or raw request bodies, response sets drawn from {200,201,204,400,404,default} with inline responses, shared component responses (used by several operations and statuses) and alias chains, 0-2 declared headers (required / optional, six types), JSON / raw / empty bodies; optional server base path; generated with --client; per operation: the implementer set of its response interface computed by go/types over the whole generated package (not sampled) and every constructible response written once; distinct by (package, interface, implementer set, written facts)",
                          explanation="implementers of every <Op>Response interface (types.Implements over all named types of the package) are compared with the Lean model (emitted types with their write<Op> method sets) and with the documented set read from the spec; every constructor's value is written through the handler path and status / Content-Type / header names / body kind / exactly-one WriteHeader are compared with the spec",
                          assumptions=["operation names distinct (else KF-C01-nameCollision)", "header values / bodies: presence and kind are compared here; their encoding is C06-C10's matter"],
